@@ -45,6 +45,12 @@ RAW = [
         "aux.py": RAW_HEADER + "K = 'aux'\n\n\ndef leaf(a):\n    return [a, K]\n\n\ndef mid(a):\n    return leaf(a) + [K]\n",
         "mod.py": RAW_HEADER + "from . import aux\nK = 'mod'\n\n\ndef leaf(a):\n    return [K, a]\n\n\ndef mid(a):\n    return leaf(a) + [K, K]\n\n\n"
                   "@memento_function(cluster=\"vp\")\ndef m1(x):\n    vrec.REC.enter('m1', x)\n    return [mid(x), aux.mid(x), leaf(x), aux.leaf(x), K, aux.K]\n"}),
+    dict(name="functions-sharing-a-qualified-name", ms=["m1", "m2"], files={
+        "aux.py": RAW_HEADER,
+        "mod.py": RAW_HEADER + "def helper(a):\n    return a + 1\n\n\nold_helper = helper\n\n\ndef helper(a):\n    return a + 2\n\n\n"
+                  "def make(k):\n    def inner(a):\n        return a * k\n    return inner\n\n\ndouble = make(2)\n\n\ndef make(k):\n    def inner(a):\n        return a + k\n    return inner\n\n\nplus3 = make(3)\n\n\n"
+                  "@memento_function(cluster=\"vp\")\ndef m1(x):\n    vrec.REC.enter('m1', x)\n    return [old_helper(x), helper(x)]\n\n\n"
+                  "@memento_function(cluster=\"vp\")\ndef m2(x):\n    vrec.REC.enter('m2', x)\n    return [double(x), plus3(x), m1(x)]\n"}),
     dict(name="two-packages", ms=["m1", "m2"], files={
         "vpb/__init__.py": "",
         "vpb/lib.py": RAW_HEADER + "RATE = 3\n\n\ndef round_half(a):\n    return a // 2 + RATE\n\n\ndef scale(a):\n    return round_half(a) * RATE\n\n\n"
